@@ -165,7 +165,8 @@ pub struct VmConfig {
 
 impl Default for VmConfig {
     fn default() -> Self {
-        VmConfig { max_instr: 2_000_000, suppress_gc: true, memory_limit: None, stack_size: None }
+        // collections are suppressed in the behavioural checks (C02 owns them), so give the heap room
+        VmConfig { max_instr: 2_000_000, suppress_gc: true, memory_limit: Some(256 << 20), stack_size: None }
     }
 }
 
